@@ -118,6 +118,16 @@ PROPS = {
         rule="as C02; non-trivial = the tree can produce a map (orig/sms leaf)",
         nontrivial=lambda p: bool(prog_kinds(p) & {"orig", "sms"}),
     ),
+    "C12": dict(
+        gens=[tlc("c12"), tlc("c12vlq", "thorough"), rand("codec", 2000, "quick"), rand("codec", 100000, "thorough")],
+        tv_props=["C12"],
+        must_fire=["C12.decode_matches_format", "C12.roundtrip_resolves_same", "C12.kept_is_subsequence",
+                   "C12.reencode_stable", "C12.decoder_matches_format", "C12.lines_only_first_mapped", "C12.vlq_digits"],
+        rule="sorted mapping sequences (small exhaustive domain, big values per field, random), grammar strings with redundant "
+             "continuation digits / empty segments / backward columns, exhaustive single-field deltas (|d| < 2^10 quick, < 2^20 "
+             "thorough); non-trivial = at least two segments or a grammar string",
+        nontrivial=lambda p: any(len(s.get("segs", [])) >= 2 or s["op"] in ("decode", "vlq_batch") for s in p.get("steps", [])),
+    ),
     "C13": dict(
         gens=[tlc("c13"), rand("laws", 400, "quick"), rand("laws", 20000, "thorough")],
         tv_props=["C13"],
